@@ -388,7 +388,9 @@ func (c *Client) Connect(ctx context.Context, t Transport, opts *ClientSessionOp
 		_ = cs.Close()
 		return nil, err
 	}
-	if !slices.Contains(supportedProtocolVersions, res.ProtocolVersion) {
+	// The initialize handshake belongs to the legacy protocol versions: a
+	// version without a handshake (2026-07-28 and later) cannot be its outcome.
+	if !slices.Contains(supportedProtocolVersions, res.ProtocolVersion) || res.ProtocolVersion >= protocolVersion20260728 {
 		_ = cs.Close()
 		return nil, unsupportedProtocolVersionError{res.ProtocolVersion}
 	}
